@@ -65,6 +65,18 @@ def misuse_matrix(ctx):
             t(tag + ' maxof with a foreign bi-affine piece', cross(lambda A, xa, za, B, xb, zb: A.st(rso.maxof(xa[0], zb @ xb) <= 5)))
             t(tag + ' expcone with foreign arguments', cross(lambda A, xa, za, B, xb, zb: A.st(rso.expcone(xa[0], xb[0], xb[1]))))
             t(tag + ' expcone of a foreign variable', cross(lambda A, xa, za, B, xb, zb: A.st(rso.expcone(xb[0], xa[0], xa[1]))))
+            # sums of a decision of A and a random variable of B, the random operand written first; as constraint and as objective
+            t(tag + ' z_B + x_A in a constraint', cross(lambda A, xa, za, B, xb, zb: A.st(zb[0] + xa[0] <= 1)))
+            t(tag + ' z_B - x_A in a constraint', cross(lambda A, xa, za, B, xb, zb: A.st(zb.sum() - xa.sum() <= 1)))
+            if ka == 'ro':
+                t(tag + ' minmax(z_B.sum() + x_A.sum())', cross(lambda A, xa, za, B, xb, zb: (A.minmax(zb.sum() + xa.sum(), abs(za) <= 1), A.st(xa >= 0), C.solve_model(A))))
+                t(tag + ' minmax(z_B[0] - x_A[0] + 2 x_A.sum())', cross(lambda A, xa, za, B, xb, zb: (A.minmax(zb[0] - xa[0] + 2 * xa.sum(), abs(za) <= 1), A.st(xa >= 0), C.solve_model(A))))
+                t(tag + ' second ldr.adapt(foreign random variable)', cross(lambda A, xa, za, B, xb, zb: (lambda y: (y.adapt(za[0]), y.adapt(zb[1])))(A.ldr(2))))
+                t(tag + ' ldr slices: own then foreign random variable', cross(lambda A, xa, za, B, xb, zb: (lambda y: (y[0].adapt(za), y[1].adapt(zb)))(A.ldr(2))))
+            if ka == 'dro':
+                def amb_a(A, za):
+                    fa = A.ambiguity(); fa.suppset(za <= 1, za >= 0); return fa
+                t(tag + ' minsup(E(z_B.sum() + x_A.sum()))', cross(lambda A, xa, za, B, xb, zb: (A.minsup(rso.E(zb.sum() + xa.sum()), amb_a(A, za)), A.st(xa >= 0), C.solve_model(A))))
             if ka == 'ro':
                 t(tag + ' ldr.adapt(foreign random variable)', cross(lambda A, xa, za, B, xb, zb: A.ldr(2).adapt(zb)))
             if ka == 'dro':
